@@ -4,6 +4,7 @@ import (
 	"fmt"
 	"os"
 	"path/filepath"
+	"strconv"
 	"strings"
 
 	"github.com/osteele/liquid"
@@ -139,7 +140,7 @@ func c14Families(tier string) []explore.Family {
 	}
 	nCfg := 64
 	G, A, B, M := len(graphs), len(c14Args), len(c14Bodies), len(mains)
-	return []explore.Family{c14ChangeFamily(), c14TwoRootsFamily(), c14ChainFamily(), {Name: "include-configurations", Count: int64(nCfg * G * A * B * M * 2), Run: func(i int64, r *explore.Rec) {
+	return []explore.Family{c14ChangeFamily(), c14TwoRootsFamily(), c14ChainFamily(), c14NamesFamily(), {Name: "include-configurations", Count: int64(nCfg * G * A * B * M * 2), Run: func(i int64, r *explore.Rec) {
 		rx := radix{i}
 		noPath := rx.next(2) == 1
 		mi, bi, ai, gi, cfg := rx.next(M), rx.next(B), rx.next(A), rx.next(G), rx.next(nCfg)
@@ -435,6 +436,69 @@ func c14TwoRootsFamily() explore.Family {
 			}
 		}
 		r.Class("two-roots/" + lay.name)
+	}}
+}
+
+// c14NamesFamily: the cache is keyed by the NAME: two names that differ only in what some file systems ignore (the
+// separator spelling, letter case, a trailing blank or dot, a doubled separator, Unicode normal form) are different
+// files. Each of the two is registered with its own content (both / only the first / only the second); an include
+// of a name renders that name's source, and fails when that name is not registered.
+func c14NamesFamily() explore.Family {
+	pairs := [][2]string{{"p/x.html", `p\x.html`}, {"x.html", "X.html"}, {"x.html", "x.html "}, {"x.html", "x.html."}, {"p/x.html", "p//x.html"},
+		{"é.html", "e\u0301.html"}, {"x.html", "x.htm"}, {"a/b.html", "a_b.html"}, {"x.html", "./p/../x.html"}}
+	return explore.Family{Name: "names-differing-in-what-file-systems-ignore", Count: int64(len(pairs) * 3), Run: func(i int64, r *explore.Rec) {
+		pr, mode := pairs[int(i)/3], int(i)%3
+		dir, err := os.MkdirTemp("", "c14names")
+		if err != nil {
+			panic(explore.BaselineFailure{Msg: "harness: " + err.Error()})
+		}
+		defer os.RemoveAll(dir)
+		eng := liquid.NewEngine()
+		main := filepath.Join(dir, "main.html")
+		reg := func(name, content string) {
+			// the name the include tag will compute: dir of the includer joined with the argument
+			if _, err := eng.ParseTemplateAndCache([]byte(content), filepath.Join(dir, name), 1); err != nil {
+				panic(explore.BaselineFailure{Msg: "harness: " + err.Error()})
+			}
+		}
+		has := [2]bool{mode != 2, mode != 1}
+		if has[0] {
+			reg(pr[0], "ONE")
+		}
+		if has[1] {
+			reg(pr[1], "TWO")
+		}
+		for k := 0; k < 2; k++ {
+			if filepath.Join(dir, pr[k]) == filepath.Join(dir, pr[1-k]) {
+				return // the two spellings are the same name after the join the include tag performs
+			}
+		}
+		for k := 0; k < 2; k++ {
+			src := "[{% include n %}]"
+			r.Eval()
+			r.Trace()
+			var o Outcome
+			o.Panic = explore.Safe(func() {
+				tpl, perr := eng.ParseTemplateLocation([]byte(src), main, 1)
+				if perr != nil {
+					o.Err = perr
+					return
+				}
+				out, rerr := tpl.Render(map[string]any{"n": pr[k]})
+				o.Out, o.Err = string(out), rerr
+			})
+			desc := map[string]any{"included_name": strconv.Quote(pr[k]), "other_name": strconv.Quote(pr[1-k]), "registered": fmt.Sprint(has)}
+			want := []string{"[ONE]", "[TWO]"}[k]
+			r.Class("names/" + o.Class())
+			switch {
+			case o.Panic != nil:
+				r.Violation("N4:names:panic", desc, "output or error", o.String())
+			case has[k] && (o.Err != nil || o.Out != want):
+				r.Violation("N4:names:other-source-rendered", desc, want, o.String())
+			case !has[k] && o.Err == nil:
+				r.Violation("N4:names:missing-name-rendered", desc, "a SourceError: no file and no cached source of that name", o.String())
+			}
+		}
 	}}
 }
 
